@@ -377,9 +377,23 @@ fn visit_items(items: &[Item], modpath: &str, label: &str, out: &mut String, cou
                 *count += 1;
                 let body_tokens = toks(&lex.block);
                 let rejected = body_tokens.contains("_logos_derive_compile_errors");
+                let lex_param = lex
+                    .sig
+                    .inputs
+                    .iter()
+                    .next()
+                    .map(|a| match a {
+                        FnArg::Typed(t) => match &*t.pat {
+                            Pat::Ident(i) => i.ident.to_string(),
+                            _ => String::new(),
+                        },
+                        _ => String::new(),
+                    })
+                    .unwrap_or_default();
                 let _ = write!(
                     out,
-                    "{{\"label\":{},\"module\":{},\"self_ty\":{},\"impl_generics\":{},\"trait\":{},\"source\":{},\"error\":{},\"extras\":{},\"rejected\":{},\"line\":{},\"unsafe_tokens\":{},\"body\":{},\"body_tokens\":{}}}\n",
+                    "{{\"lex_param\":{},\"label\":{},\"module\":{},\"self_ty\":{},\"impl_generics\":{},\"trait\":{},\"source\":{},\"error\":{},\"extras\":{},\"rejected\":{},\"line\":{},\"unsafe_tokens\":{},\"body\":{},\"body_tokens\":{}}}\n",
+                    esc(&lex_param),
                     esc(label),
                     esc(modpath),
                     esc(&self_ty),
